@@ -167,7 +167,8 @@ def invalid_schema(d, k, kind):
 def conditions(tier, seed, active):
     quick = tier == "quick"
     out = tp.gen_conditions(__name__, "single", tier, seed, rate={"T1": 0.3, "T2": 0.5, "T3": 0.08}, pairs_quick=8, rest=not quick,
-                            heavy_quick=False, t1_obj_small=True)
+                            heavy_quick=False, t1_obj_small=True,
+                            only=(lambda t: not t.name.endswith("_scalar_members")) if quick else None)
     rng = random.Random(seed + 1)
     fcs = tp.gen_conditions(__name__, "single", tier, seed + 7, groups=("T2",), rate={"T2": 0.15 if quick else 1.0}, rest=False,
                             extra_params={"fc": True})
